@@ -183,6 +183,17 @@ func replayWitnessPath(m map[string]any) int {
 	}
 	if len(logs) == 0 {
 		logs = []wh.LogCfg{{Origin: logA(), Key: u.K1}, {Origin: logB(), Key: u.K2}, {Origin: logC(), Key: u.K1}}
+		// C02's named configurations.
+		switch m["config"] {
+		case "1 log":
+			logs = logs[:1]
+		case "2 logs distinct keys":
+			logs = logs[:2]
+		case "3 logs, two sharing one key":
+			logs = []wh.LogCfg{logs[0], logs[2], logs[1]}
+		case "2 logs, same key name, different keys":
+			logs = []wh.LogCfg{logs[0], {Origin: "verif.example/log-e", Key: uni.NewKey(u.K1.Name, seed+7919)}}
+		}
 	}
 	var signers []string
 	if l, ok := m["signers"].([]any); ok {
@@ -205,6 +216,14 @@ func replayWitnessPath(m map[string]any) int {
 		}
 		fmt.Printf("%s %s\n    log=%.8s old=%d proof=%d hashes cp=%d bytes\n    -> %s (%v), returned %s, state changed: %v\n", i, r.Label, r.LogID, r.Old, len(r.Proof), len(r.CP), out.Class, out.Err, ret, !after.Equal(before))
 	}
+	if sd, _ := m["seeded"].(bool); sd {
+		u8 := uni.New(seed, 8, []int{0})
+		g := wh.NewCPGen(u8)
+		for _, l := range logs {
+			cp, meta := g.Get(l, u8.Main, 2, "plain")
+			show("seed "+l.Origin, wh.Req{LogID: l.ID(), CP: cp, Meta: meta, Label: "main@2 plain"})
+		}
+	}
 	if p, ok := m["path"].([]any); ok {
 		for i, x := range p {
 			mm, _ := x.(map[string]any)
@@ -212,7 +231,19 @@ func replayWitnessPath(m map[string]any) int {
 		}
 	}
 	if r, ok := m["request"].(map[string]any); ok {
-		show("REQUEST", reqFromJSON(r))
+		rq := reqFromJSON(r)
+		if _, viaHTTP := m["http"]; viaHTTP && len(logs) >= 2 {
+			// C10: the recorded request went through the add-checkpoint handler.
+			h := bastion.VerifNewHandler(omniwitness.VerifWitnessAdapter(e.W), c10Logs(logs[0], logs[1]), u.W1.CosigVerif, rate.Inf, 1, true)
+			mode := "whole"
+			if store == "sql" {
+				mode = "bytewise"
+			}
+			resp := c10ServeMode(h, c10Body(rq.Old, rq.Proof, rq.CP), mode)
+			fmt.Printf("REQUEST %s via HTTP (%s delivery)\n    -> status %d content-type %q body %q\n", rq.Label, mode, resp.Status, resp.CT, short(resp.Body))
+		} else {
+			show("REQUEST", rq)
+		}
 	}
 	fmt.Printf("recorded: what=%v\nrecorded: expected=%v observed=%v\n", m["what"], m["expected"], m["observed"])
 	return 0
